@@ -72,6 +72,6 @@ def main(tier, replay=None):
         PROP, tier, gen_cases(tier), run_case,
         "one trace per (dividend, divisor): dividends built by composing the divisor with a hidden partner (quotient exists), "
         "or unrelated; one event per (additional_inputs, simplify, tactics_order); non-trivial = quotient returned; distinct by digest",
-        replay=replay,
+        replay=replay, design=("Alg_quotient_quick.cfg", "Alg_quotient.cfg"),
         nontrivial=lambda ev: ev["exc"] == "none",
     )
